@@ -11,7 +11,7 @@
    k, n < 2^24 (both casts and the doubling are then exact and the division
    is correctly rounded). *)
 From Coq Require Import QArith.
-From Similar Require Import Model.Base Model.Capture Spec.Script Check.Script.
+From Similar Require Import Model.Base Check.Script.
 Local Close Scope Q_scope.
 
 Definition frac : Type := option (nat * nat).
